@@ -539,7 +539,12 @@ func (e *Evaluator) evalFor(f *parser.ForStmt) (value, error) {
 		loopVarName = f.LoopVar.Name
 	}
 	for r.next(e.scope, loopVarName) {
+		// Each iteration runs the body in a scope of its own, so that a
+		// variable declared in the body does not survive into the next
+		// iteration, where it would shadow an outer variable of that name.
+		e.pushScope()
 		val, err := e.eval(f.Block)
+		e.popScope()
 		if err != nil {
 			return nil, err
 		}
